@@ -7,7 +7,8 @@ n=$1; shift
 export GOFLAGS=-mod=mod GOPROXY=off GOSUMDB=off GOTOOLCHAIN=local
 cd /repo || exit 2
 git diff --quiet || { echo "repo dirty"; exit 2; }
-for c in $(git rev-list --reverse main..agent-$n); do
+for c in $(git cherry main agent-$n | grep "^+" | cut -d" " -f2); do
+  [ "$(git rev-list --parents -n1 $c | wc -w)" -gt 2 ] && continue   # merge commit
   if git log main --format=%s | grep -qxF "$(git log -1 --format=%s $c)"; then echo "skip (already on main): $(git log -1 --oneline $c)"; continue; fi
   git cherry-pick $c >/dev/null 2>&1 || { echo "CHERRY-PICK CONFLICT at $c"; git status --short | head; exit 3; }
   echo "picked: $(git log -1 --oneline)"
